@@ -10,6 +10,8 @@ CONSTANTS
   ChirpKeyByChannel = FALSE
   EagerOps <- None_
   NumpyOps <- None_
+  ReaderPerBlock = FALSE
+  OverwriteTags <- None_
 VIEW View
 INVARIANT OrderIndependent
 CHECK_DEADLOCK FALSE
